@@ -207,16 +207,47 @@ def gen_matrix_graph(rng, cap=1500):
     raise RuntimeError("zoo: could not generate a small matrix graph")
 
 
+def gen_deep_directed(rng, cap=1500):
+    """Directed (not inverse-closed) permutation graphs with MANY thin layers: cyclic shift (+ a swap / a second shift) acting on
+    a coloured sequence with one or two marked positions. 30-140 layers, small orbits, 1-5 code words."""
+    for _ in range(100):
+        n = rng.randint(18, 70)
+        shift = [(i + 1) % n for i in range(n)]
+        kind = rng.random()
+        if kind < 0.4:
+            gens = [shift, [1, 0] + list(range(2, n))]                       # LX
+        elif kind < 0.6:
+            k = rng.randint(2, 5)
+            gens = [shift, [(i + k) % n for i in range(n)]]                  # two shifts
+        elif kind < 0.8:
+            gens = [shift]                                                   # a directed cycle
+        else:
+            a, b = rng.sample(range(n), 2)
+            x = list(range(n)); x[a], x[b] = x[b], x[a]
+            gens = [shift, x]
+        central = [0] * n
+        marks = rng.randint(1, 2)
+        for c, pos in enumerate(rng.sample(range(n), marks)):
+            central[pos] = c + 1 if rng.random() < 0.5 else 1
+        gd = {"kind": "perm", "gens": gens, "central": central}
+        r = ref_bfs(gd, [central], cap)
+        if r is not None and len(r[0]) >= 20:
+            return gd
+    return gen_perm_graph(rng, cap, multiword=True)
+
+
 def gen_graph(rng, cap=1500):
     """Mostly graphs with a non-trivial orbit (>= 12 vertices, >= 4 layers); a quarter are unconstrained (tiny orbits included)."""
     want_big = rng.random() < 0.75
     best = None
     for _ in range(40):
         r = rng.random()
-        if r < 0.55:
+        if r < 0.5:
             gd = gen_perm_graph(rng, cap)
-        elif r < 0.75:
+        elif r < 0.68:
             gd = gen_perm_graph(rng, cap, multiword=True)
+        elif r < 0.77:
+            gd = gen_deep_directed(rng, cap)
         else:
             gd = gen_matrix_graph(rng, cap)
         if not want_big:
